@@ -8,16 +8,25 @@
    Invariant PermInv:  E2[pi(i)] = E1[i]  and  H2[pi(i)] = H1[i]  for every entry after every half step.
    Applying the relabelling three times gives back the scene (PermCubeId).
 
+   ten = "full" runs the full 3x3 tensor update (off-diagonal couplings through four-point averages); the
+   relabelled tensor is PermTensor (pi on both indices).
    Variant # "ok" breaks one per-axis branch (layer derivative pair of axis y, curl_y operand order, PEC
-   tangential table of the y faces) in both copies; TLC must reject those.                                *)
+   tangential table of the y faces, averaging location of the yz coupling) in both copies, or relabels only the
+   diagonal of the tensor ("tensor_diag_only"); TLC must reject those.                                *)
 EXTENDS AxisPermDefs
 
 CONSTANTS Shapes, MaxT, Variant, Kinds
 
-VARIABLES N, bk, lay, mat, src, ini, E1, H1, E2, H2, pc, t
-vars == << N, bk, lay, mat, src, ini, E1, H1, E2, H2, pc, t >>
+VARIABLES N, bk, lay, mat, ten, src, ini, E1, H1, E2, H2, pc, t
+vars == << N, bk, lay, mat, ten, src, ini, E1, H1, E2, H2, pc, t >>
 
 MatOf(n) == [ i \in 1..Size(n) |-> 1 + ((Comp(i, n) + Coord(i, n, 1) + 2 * Coord(i, n, 2)) % 2) ]   \* diagonal tensor, varies
+\* full symmetric 3x3 coefficient tensor per cell: diagonal 2,3,4 (+ cell parity), couplings xy = 1, xz = 2, yz = 3
+\* (all non-zero and distinct), used when ten = "full"
+Sym(r, c) == IF r = c THEN 2 + r ELSE r + c
+TensorOf(n) == [ i \in 1..Size9(n) |->
+                   LET k == (i - 1) \div Cells(n)
+                   IN  Sym(k \div 3, k % 3) + (IF (k \div 3) = (k % 3) THEN (Coord(i, n, 1) + Coord(i, n, 2)) % 2 ELSE 0) ]
 Dense(n, s) == [ i \in 1..Size(n) |-> 1 + Comp(i, n) + 2 * Coord(i, n, 1) + 3 * Coord(i, n, 2) + 5 * Coord(i, n, 3) + s ]
 Zero(n) == [ i \in 1..Size(n) |-> 0 ]
 N2 == PermShape(N)
@@ -28,6 +37,7 @@ Init == /\ N \in Shapes
         /\ bk \in [ 1..3 -> Kinds ]
         /\ lay \in { << -1, 0 >> } \cup { << a, 2 >> : a \in { a \in 0..2 : bk[a + 1] = "open" } }
         /\ mat = MatOf(N)
+        /\ ten \in {"diag", "full"} /\ (ten = "full" => lay[1] < 0)
         /\ ini \in {"dense", "zero"}
         /\ src \in IF ini = "zero" THEN 1..Size(N) ELSE {0}
         /\ E1 = IF ini = "dense" THEN Dense(N, 0) ELSE Zero(N)
@@ -36,15 +46,18 @@ Init == /\ N \in Shapes
         /\ pc = "E" /\ t = 0
 
 UpdE == /\ pc = "E" /\ t < MaxT
-        /\ E1' = YeeE(E1, H1, mat, N, bk, lay, src, Variant)
-        /\ E2' = YeeE(E2, H2, PermField(mat, N), N2, PermVec(bk), PermLay(lay), PermSrc(src, N), Variant)
+        /\ IF ten = "diag"
+           THEN /\ E1' = YeeE(E1, H1, mat, N, bk, lay, src, Variant)
+                /\ E2' = YeeE(E2, H2, PermField(mat, N), N2, PermVec(bk), PermLay(lay), PermSrc(src, N), Variant)
+           ELSE /\ E1' = YeeEFull(E1, H1, TensorOf(N), N, bk, lay, src, Variant)
+                /\ E2' = YeeEFull(E2, H2, PermTensor(TensorOf(N), N, Variant), N2, PermVec(bk), PermLay(lay), PermSrc(src, N), Variant)
         /\ pc' = "H"
-        /\ UNCHANGED << N, bk, lay, mat, src, ini, H1, H2, t >>
+        /\ UNCHANGED << N, bk, lay, mat, ten, src, ini, H1, H2, t >>
 UpdH == /\ pc = "H"
         /\ H1' = YeeH(E1, H1, N, bk, lay, Variant)
         /\ H2' = YeeH(E2, H2, N2, PermVec(bk), PermLay(lay), Variant)
         /\ pc' = "E" /\ t' = t + 1
-        /\ UNCHANGED << N, bk, lay, mat, src, ini, E1, E2 >>
+        /\ UNCHANGED << N, bk, lay, mat, ten, src, ini, E1, E2 >>
 Next == UpdE \/ UpdH
 Spec == Init /\ [][Next]_vars
 
@@ -53,6 +66,9 @@ TypeOK == pc \in {"E", "H"} /\ t \in 0..MaxT /\ Len(E1) = Size(N) /\ Len(E2) = S
 PermInv == PermRel(E2, E1, N) /\ PermRel(H2, H1, N)
 \* the index map is a bijection and its cube is the identity
 PermBijective == { PermIdx(i, N) : i \in 1..Size(N) } = 1..Size(N2)
+\* the tensor relabelling is a bijection, keeps symmetry, and agrees with its inverse-map form
+TensorPermOK == /\ { PermIdx9(i, N, "ok") : i \in 1..Size9(N) } = 1..Size9(N2)
+                /\ PermRel9(PermTensor(TensorOf(N), N, "ok"), TensorOf(N), N)
 PermCubeId == \A i \in 1..Size(N) : PermIdx(PermIdx(PermIdx(i, N), N2), PermShape(N2)) = i
 
 ShapesQ == { <<3,2,1>> }
